@@ -940,6 +940,20 @@ func (e *Engine) loopVarValues(fr *Frame, li *loopInfo, ls *LoopSpec, st *State)
 			}
 		}
 		if val == nil {
+			// any named local whose value is available (debug references)
+			for _, b := range fr.fn.Blocks {
+				for _, ins := range b.Instrs {
+					if d, ok := ins.(*ssa.DebugRef); ok && !d.IsAddr {
+						if id, ok := d.Expr.(*ast.Ident); ok && id.Name == v.Name {
+							if x, ok := st.vals[d.X]; ok && val == nil {
+								val = x
+							}
+						}
+					}
+				}
+			}
+		}
+		if val == nil {
 			panic(fmt.Sprintf("loop %d of %s: no loop variable %q", li.ordinal, shortFn(fr.fn), v.Name))
 		}
 		out = append(out, val)
